@@ -115,6 +115,7 @@ package preconfirmed
 //@   ensures below: current != nil && current.length > 0 && blockNumber < numOf(current.head) - uint64(current.length - 1) ==> result2 != nil && result0 == nil
 //@   ensures gap: current != nil && current.length > 0 && blockNumber > numOf(current.head) + 1 ==> result2 != nil && result0 == nil
 //@   ensures appended: current != nil && current.length > 0 && blockNumber == numOf(current.head) + 1 && result2 == nil && result0 != nil ==> result0.length == current.length + 1 && wfNode(result0.head) && result0.head.parent == current.head && numOf(result0.head) == numOf(current.head) + 1
+//@   ensures only_append_above_tip: current != nil && current.length > 0 && result0 != nil && calls_replaceSlot == old(calls_replaceSlot) ==> blockNumber == numOf(current.head) + 1
 //@   ensures in_chain: calls_replaceSlot != old(calls_replaceSlot) ==> current != nil && current.length > 0 && arg_replaceSlot_blockNumber == blockNumber && numOf(current.head) - uint64(current.length - 1) <= blockNumber && blockNumber <= numOf(current.head) && numOf(current.head) - uint64(current.length - 1) == oldestPreConf
 
 // NewChain accepts exactly the non-nil, gap-free sequences and links them oldest to newest.
